@@ -137,6 +137,54 @@ fn check_offset(p: &Synth, local: i128, dis: Disambiguation, rng: &mut Rng, fail
     }
 }
 
+/// a zoned relativeTo string (C13 observe-at RelativeTo::try_from_str_with_provider): the offset must match the zone
+/// (option reject), a repeated or skipped time resolves as compatible, Z is the exact instant
+fn check_relative_to(p: &Synth, local: i128, rng: &mut Rng, fails: &mut Vec<Failure>) {
+    let Some(dt) = dt_of(local) else { return };
+    if dt.year() < 0 || dt.year() > 9999 { return; }
+    let cands = p.possible(local);
+    let mut offs: Vec<i64> = cands.iter().map(|c| ((local - c) / 1_000_000_000) as i64).collect();
+    offs.push(-(rng.range(1, 59) as i64)); offs.push(-(rng.range(60, 14 * 3600) as i64)); offs.push(rng.range(60, 14 * 3600) as i64);
+    let base = format!("{:04}-{:02}-{:02}T{:02}:{:02}:{:02}.{:03}{:03}{:03}", dt.year(), dt.month(), dt.day(), dt.hour(), dt.minute(), dt.second(), dt.millisecond(), dt.microsecond(), dt.nanosecond());
+    // constant zones whose offset carries seconds, both signs: the matching text must be accepted, to the exact instant
+    for off in [-(rng.range(1, 59) as i64), -(rng.range(61, 14 * 3600) as i64) | 1, rng.range(61, 14 * 3600) as i64 | 1, -17762, -2670] {
+        let q = Synth { initial: off, transitions: vec![] };
+        let offtxt = if off % 60 == 0 { format!("{}{:02}:{:02}", if off < 0 { '-' } else { '+' }, off.abs() / 3600, off.abs() / 60 % 60) }
+            else { format!("{}{:02}:{:02}:{:02}", if off < 0 { '-' } else { '+' }, off.abs() / 3600, off.abs() / 60 % 60, off.abs() % 60) };
+        let text = format!("{base}{offtxt}[Synthetic/Zone]");
+        let want = local - off as i128 * 1_000_000_000;
+        if want.abs() > 8_640_000_000_000_000_000_000 { continue; }
+        let input = format!("relativeTo text={text} initial={off} transitions=[]");
+        match catch_unwind(std::panic::AssertUnwindSafe(|| temporal_rs::options::RelativeTo::try_from_str_with_provider(&text, &q))) {
+            Ok(Ok(temporal_rs::options::RelativeTo::ZonedDateTime(z))) if z.epoch_nanoseconds().as_i128() == want => {}
+            other => fails.push(Failure { what: "relativeTo string: offset of a constant zone".into(), input, expected: format!("{want}"), observed: format!("{:?}", other.map(|r| r.map(|v| match v { temporal_rs::options::RelativeTo::ZonedDateTime(z) => z.epoch_nanoseconds().as_i128(), _ => 0 }))) }),
+        }
+        if fails.len() >= 5 { return; }
+    }
+    for off in offs {
+        let offtxt = if off % 60 == 0 { format!("{}{:02}:{:02}", if off < 0 { '-' } else { '+' }, off.abs() / 3600, off.abs() / 60 % 60) }
+            else { format!("{}{:02}:{:02}:{:02}", if off < 0 { '-' } else { '+' }, off.abs() / 3600, off.abs() / 60 % 60, off.abs() % 60) };
+        let text = format!("{base}{offtxt}[Synthetic/Zone]");
+        let off_ns = off as i128 * 1_000_000_000;
+        // an exact match is required to be accepted; a text without seconds may also match a candidate to the minute (not decided here)
+        let exact = cands.iter().find(|c| local - **c == off_ns).copied();
+        let near = cands.iter().any(|c| ((local - *c) - off_ns).abs() < 60_000_000_000);
+        let input = format!("relativeTo text={text} initial={} transitions={:?}", p.initial, p.transitions);
+        let r = catch_unwind(std::panic::AssertUnwindSafe(|| temporal_rs::options::RelativeTo::try_from_str_with_provider(&text, p)));
+        match r {
+            Err(_) => fails.push(Failure { what: "relativeTo string: panicked".into(), input, expected: format!("{exact:?}"), observed: "panic".into() }),
+            Ok(Ok(temporal_rs::options::RelativeTo::ZonedDateTime(z))) => {
+                let got = z.epoch_nanoseconds().as_i128();
+                if let Some(w) = exact { if got != w { fails.push(Failure { what: "relativeTo string: instant".into(), input, expected: format!("{w}"), observed: format!("{got}") }); } }
+                else if !near { fails.push(Failure { what: "relativeTo string: offset that does not match the zone accepted".into(), input, expected: "RangeError".into(), observed: format!("{got}") }); }
+            }
+            Ok(Ok(_)) => fails.push(Failure { what: "relativeTo string: zoned string read as a plain date".into(), input, expected: format!("{exact:?}"), observed: "PlainDate".into() }),
+            Ok(Err(e)) => if exact.is_some() { fails.push(Failure { what: "relativeTo string: matching offset refused".into(), input, expected: format!("{exact:?}"), observed: format!("{e:?}") }); },
+        }
+        if fails.len() >= 5 { return; }
+    }
+}
+
 const DIS: [Disambiguation; 4] = [Disambiguation::Compatible, Disambiguation::Earlier, Disambiguation::Later, Disambiguation::Reject];
 
 /// PlainDate -> ZonedDateTime at the edges of the range: a date-time outside the limits is a RangeError, never a value
@@ -202,7 +250,7 @@ pub fn search_gap(rng: &mut Rng, budget: u64, fails: &mut Vec<Failure>, max_gap:
             for _ in 0..6 {
                 let near = *at as i128 * 1_000_000_000 + (o0 as i128 + rng.range(-5 * 3600, 5 * 3600 + jump.abs() as i128)) * 1_000_000_000 + rng.range(0, 999_999_999);
                 for dis in DIS { check(&p, near, dis, "synthetic", fails); if fails.len() >= 5 { return; } }
-                if max_gap <= 3 * 3600 { check_offset(&p, near, DIS[(rng.next() % 4) as usize], rng, fails); if fails.len() >= 5 { return; } }
+                if max_gap <= 3 * 3600 { check_offset(&p, near, DIS[(rng.next() % 4) as usize], rng, fails); if fails.len() >= 5 { return; } check_relative_to(&p, near, rng, fails); if fails.len() >= 5 { return; } }
             }
         }
     }
